@@ -10,8 +10,11 @@ import (
 	"crypto/sha256"
 	"encoding/binary"
 	"encoding/hex"
+	"errors"
 	"fmt"
+	"io"
 	"reflect"
+	"runtime"
 	"strings"
 
 	"github.com/tormoder/fit"
@@ -45,7 +48,35 @@ func (o Op) String() string {
 }
 
 // OpKinds lists the call kinds.
-var OpKinds = []string{"decode", "decodeopts", "chained", "integrity", "headerfileid", "encode", "encodebad", "encodefw"}
+var OpKinds = []string{"decode", "decodeopts", "chained", "integrity", "headerfileid", "decodefault", "encode", "encodebad", "encodefw"}
+
+// faultAts are the byte counts after which the reader of a "decodefault"
+// call fails with an error of its own (inside the header after the size
+// byte, at its end, inside the first records, later).
+var faultAts = []int{1, 5, 9, 12, 13, 14, 17, 30, 64, 200}
+
+type faultReader struct {
+	data []byte
+	at   int
+	err  error
+}
+
+func (r *faultReader) Read(p []byte) (int, error) {
+	if r.at == 0 {
+		return 0, r.err
+	}
+	if len(r.data) == 0 {
+		return 0, io.EOF
+	}
+	n := len(p)
+	if n > r.at {
+		n = r.at
+	}
+	n = copy(p[:n], r.data)
+	r.data = r.data[n:]
+	r.at -= n
+	return n, nil
+}
 
 func skipK1(msg, field string) bool {
 	return hx.Open("K1") && msg == "RecordMsg" && field == "Distance"
@@ -89,6 +120,18 @@ func Run(p *Pool, op Op, files map[int]*fit.File) (res string) {
 			sb.WriteString("--\n")
 		}
 		return sb.String()
+	case "decodefault":
+		// a reader that fails with an error of its own, different for every
+		// input: what the call reports must be about this reader
+		cause := fmt.Errorf("verif: reader fault on input %d", op.Idx)
+		f, err := fit.Decode(&faultReader{data: p.Bytes[op.Idx], at: faultAts[op.Idx%len(faultAts)], err: cause})
+		res := fmt.Sprintf("err=%s is-cause=%v is-unexpected-eof=%v\n", errText(err), errors.Is(err, cause), errors.Is(err, io.ErrUnexpectedEOF)) + digestFile(f)
+		// the error value must still say the same once other calls have run
+		runtime.Gosched()
+		if again := errText(err); !strings.HasPrefix(res, "err="+again+" ") {
+			res += "\nerror text changed after return: " + again
+		}
+		return res
 	case "integrity":
 		return "err=" + errText(fit.CheckIntegrity(bytes.NewReader(p.Bytes[op.Idx]), false)) + " hdr=" + errText(fit.CheckIntegrity(bytes.NewReader(p.Bytes[op.Idx]), true))
 	case "headerfileid":
@@ -192,6 +235,29 @@ func BuildPool(seed int) *Pool {
 			s, _ := gen.GenStream(d, o)
 			p.Bytes = append(p.Bytes, s.Bytes())
 			p.Names = append(p.Names, "generated stream")
+		}
+		// inputs every entry point rejects, at each stage: cut inside the
+		// header (after a legal size byte), at its end, inside the records,
+		// inside the trailing CRC; an illegal size byte; a wrong CRC
+		for _, hs := range []byte{12, 14} {
+			s := &fitmodel.Stream{HeaderSize: hs, Proto: 0x20, Recs: []fitmodel.Rec{
+				{IsDef: true, Global: 0, Fields: []fitmodel.FieldDef{{Num: 0, Size: 1, Base: 0}}}, {Raw: []byte{4}},
+				{IsDef: true, Local: 1, Global: 20, Fields: []fitmodel.FieldDef{{Num: 253, Size: 4, Base: 0x86}}},
+				{Local: 1, Raw: []byte{1, 2, 3, 4}},
+			}}
+			whole := s.Bytes()
+			for _, n := range []int{0, 1, 5, int(hs) - 1, int(hs), int(hs) + 3, len(whole) - 3, len(whole) - 1} {
+				p.Bytes = append(p.Bytes, append([]byte(nil), whole[:n]...))
+				p.Names = append(p.Names, fmt.Sprintf("%d-byte-header file cut after %d bytes", hs, n))
+			}
+			bad := append([]byte(nil), whole...)
+			bad[0] = 13
+			p.Bytes = append(p.Bytes, bad)
+			p.Names = append(p.Names, "illegal header size byte")
+			bad = append([]byte(nil), whole...)
+			bad[len(bad)-1] ^= 0x5A
+			p.Bytes = append(p.Bytes, bad)
+			p.Names = append(p.Names, "wrong file CRC")
 		}
 		// streams with component accumulation (history-sensitive state)
 		for i := 0; i < 4; i++ {
